@@ -109,7 +109,7 @@ def convert_facebook_url_to_mobile(url):
 
     scheme, netloc, path, query, fragment = urlsplit(safe_url)
 
-    if "facebook" not in netloc:
+    if "facebook" not in netloc.lower():
         raise TypeError(
             "ural.facebook.convert_facebook_url_to_mobile: %s is not a facebook url"
             % url
